@@ -30,7 +30,7 @@ impl Prop for C01 {
         "C01"
     }
     fn cases(&self, tier: Tier) -> u64 {
-        tier.pick(400_000, 6_000_000)
+        tier.pick(1_000_000, 6_000_000)
     }
     fn strategy(&self, _tier: Tier) -> BoxedStrategy<Case> {
         let policy = prop_oneof![
@@ -126,10 +126,21 @@ impl Prop for C01 {
             Tier::Quick => {
                 let (lo, hi) = chunk(800, shard, nshards);
                 for y in lo..hi {
+                    let yy = 1600 + y as i32;
                     for d in 17..=24u32 {
-                        let date = gen::ymd(1600 + y as i32, 3, d);
+                        let date = gen::ymd(yy, 3, d);
                         for k in 0..24 {
                             eval(date, k, st)?;
+                        }
+                    }
+                    // calendar seams: Jan 1-2, Feb 28 - Mar 1 (Feb 29 when it exists), Dec 31
+                    let mut seams = vec![gen::ymd(yy, 1, 1), gen::ymd(yy, 1, 2), gen::ymd(yy, 2, 28), gen::ymd(yy, 3, 1), gen::ymd(yy, 12, 31)];
+                    if gen::is_leap(yy) {
+                        seams.push(gen::ymd(yy, 2, 29));
+                    }
+                    for date in seams {
+                        for k in (0..24).step_by(2) {
+                            eval(date, k + (yy as i64 % 2), st)?;
                         }
                     }
                 }
@@ -147,7 +158,7 @@ impl Prop for C01 {
         Ok(())
     }
     fn rule(&self) -> String {
-        "generated (site incl. poles, GMT offset within 6 h of lon/15, method, date from the hot-window mixture) plus a grid of 24 meridians x dates (quick: every Mar 17-24 of 1600-2399; thorough: every date 1600-2399). Every case is a real evaluation against the ephemeris; non-trivial = in a hot class (RA-wrap window, Feb 25-Mar 3, year end, |lat| >= 66.56, GMT mismatch >= 3 h); distinct by hash of the case".into()
+        "generated (site incl. poles, GMT offset within 6 h of lon/15, method, date from the hot-window mixture) plus a grid of 24 meridians x dates (quick: every Mar 17-24 plus Jan 1-2, Feb 28/29, Mar 1 and Dec 31 of 1600-2399; thorough: every date 1600-2399). Every case is a real evaluation against the ephemeris; non-trivial = in a hot class (RA-wrap window, Feb 25-Mar 3, year end, |lat| >= 66.56, GMT mismatch >= 3 h); distinct by hash of the case".into()
     }
     fn assumptions(&self) -> Vec<String> {
         vec![
@@ -160,7 +171,7 @@ impl Prop for C01 {
         json!({"abs_hour_angle_s": TOL_S})
     }
     fn extra_evidence(&self, tier: Tier) -> serde_json::Value {
-        json!({"grid": tier.pick("24 meridians x every Mar 17-24 of 1600-2399 (153,600 evaluations)", "24 meridians x every date 1600-2399 (7,012,776 evaluations)")})
+        json!({"grid": tier.pick("24 meridians x every Mar 17-24 of 1600-2399 (153,600 evaluations) + 12 meridians x Jan 1-2, Feb 28/29, Mar 1, Dec 31 of every year (~50,000)", "24 meridians x every date 1600-2399 (7,012,776 evaluations)")})
     }
 }
 
